@@ -3,6 +3,7 @@ package checks
 import (
 	"fmt"
 	"os"
+	"path/filepath"
 	"sort"
 	"sync"
 	"sync/atomic"
@@ -39,7 +40,7 @@ func init() {
 			return 64
 		},
 		Run:     runC12,
-		Require: []string{"backups_judged", "backups_deterministic", "backups_concurrent", "rollover_during_backup", "writes_during_backup", "compact_attempt_during_backup", "fs_mem", "fs_os", "fs_osmmap"},
+		Require: []string{"backups_judged", "backups_deterministic", "backups_concurrent", "rollover_during_backup", "writes_during_backup", "compact_attempt_during_backup", "sessions_started_by_truncating_recovery", "fs_mem", "fs_os", "fs_osmmap"},
 	})
 }
 
@@ -108,7 +109,7 @@ func runC12Deterministic(c *core.Ctx) {
 		c.Violation("open-error", err.Error(), nil)
 		return
 	}
-	defer db.Close()
+	defer func() { db.Close() }()
 	var ops []wop
 	ref := core.State{}
 	val := 0
@@ -134,6 +135,41 @@ func runC12Deterministic(c *core.Ctx) {
 		}
 		ops = append(ops, o)
 		return true
+	}
+	if (c.Case/2)%2 == 1 {
+		// this session starts with a recovery that discards a torn tail: write, "crash" (directory copied while open, a
+		// partial record appended to the newest segment), recover, and take the backups in the recovered session
+		for i := 0; i < 40; i++ {
+			if !write() {
+				return
+			}
+		}
+		nenv := core.NewEnv(fsk)
+		defer nenv.Cleanup()
+		if err := env.CopyDirTo(nenv); err != nil {
+			c.Violation("setup-error", err.Error(), nil)
+			return
+		}
+		segs := db.VerifSegments()
+		name := filepath.Join(nenv.Dir, segs[len(segs)-1].Name)
+		old, err := nenv.ReadFile(name)
+		if err != nil {
+			c.Violation("setup-error", err.Error(), nil)
+			return
+		}
+		rec := encodeRecord([]byte("torn"), core.MakeVal(1, 200), false)
+		if err := nenv.WriteFile(name, append(old, rec[:len(rec)-9]...)); err != nil {
+			c.Violation("setup-error", err.Error(), nil)
+			return
+		}
+		db.Close()
+		env = nenv
+		db, err = env.Open(cfg)
+		if err != nil {
+			c.Violation("recover-error", err.Error(), nil)
+			return
+		}
+		c.Stat("sessions_started_by_truncating_recovery", 1)
 	}
 	nb := 3 + rng.Intn(3)
 	for b := 0; b < nb; b++ {
